@@ -1,71 +1,238 @@
 package main
 
+// Property → rules.  Each explanation states the structural clause that is decided (a
+// necessary condition of the behavioural property) and, separately, what is NOT decided.
+
 var props = map[string]PropSpec{}
 
+var commonAssumptions = []string{
+	"the Go type checker and go/ssa (x/tools v0.29.0) represent the source faithfully",
+	"analysis is path-insensitive except where a must-pass-through / region query is stated",
+	"callers of the library do not edit Document.parts / Body.Elements behind its back",
+}
+
 func init() {
+	props["C01"] = PropSpec{
+		Title:       "Every saved document is a well-formed OOXML package",
+		Explanation: "Decides: (part-prov) every value stored into Document.parts comes from encoding/xml marshalling, an unmodified copy, the caller's image bytes under word/media/, or a constant that parses as XML; (raw-xml) every data value spliced into raw XML text, and every value stored into an ,innerxml field, passes an encoding/xml escaper; (ct-media) the extension used to name a media part is the one registered as content-type default by the same operation; (save-complete/sibling) both save entry points regenerate [Content_Types].xml, _rels/.rels, the document relationships and the main part before writing, and the only officeDocument relationship is the one in the initial literal list.",
+		NotDecided:  "what encoding/xml and archive/zip emit for pathological values (trusted); parts of opened foreign packages that are already ill-formed",
+		Rules: []Rule{
+			{"part-prov", "provenance of every Document.parts store (dependence slice of the stored value)", rulePartProv},
+			{"raw-xml", "data values reaching raw XML sinks pass an encoding/xml escaper", ruleRawXML},
+			{"ct-media", "media part extension = registered content-type default extension (same symbolic source)", ruleCTMedia},
+			{"save-complete", "Save and ToBytes run the same regeneration sequence incl. content types and relationships", ruleSaveSibling},
+		},
+		Assumptions: append([]string{"encoding/xml escapes text and attribute values and replaces invalid characters"}, commonAssumptions...),
+	}
+	props["C02"] = PropSpec{
+		Title:       "Relationships and relationship references always resolve, uniquely",
+		Explanation: "Decides: (fresh-dep) the id of every relationship added to a list that may already hold arbitrary ids is computed from the ids in that list (its backward dependence slice reads Relationship.ID), not from len() or a constant; (rel-attach) every relationship literal with a constant type is attached to the relationship list of the part that owns that type (ECMA-376 table) and its target, resolved against that part's directory, equals the key of a part the library stores (symbolic string equality); (ref-flow) ids written into header/footer references, ImageInfo.RelationID and a:blip r:embed are the very SSA value stored as the id of the relationship of the matching kind created by the same call.",
+		NotDecided:  "references inside opened foreign packages; uniqueness after callers edit the relationship lists themselves",
+		Rules: []Rule{
+			{"fresh-dep/relid", "new relationship ids depend on existing ids (dependence slice)", ruleFreshRelID},
+			{"rel-attach", "relationship type → owning list and target ↔ stored part key", ruleRelAttach},
+			{"ref-flow", "body references carry the id of the relationship just created", ruleRefFlow},
+		},
+		Assumptions: commonAssumptions,
+	}
 	props["C03"] = PropSpec{
 		Title:       "Saving then opening a document loses nothing the library can express",
-		Explanation: "Decides the structural clause 'the hand-written reader covers the struct-tag driven writer': for every struct reachable from the body element kinds, every element field has a reader case for its local name that stores into that field, every attribute field is filled from the attribute of the same name, every body element kind the API can append is constructed by the reader, and hand-written MarshalXML methods pass every tagged field to the encoder. A necessary condition of the round trip, not the round trip itself.",
+		Explanation: "Decides 'the hand-written reader covers the struct-tag driven writer': for every struct reachable from the body element kinds, every element field has a reader case for its local name whose region stores into that field, every attribute field is filled from the attribute of the same name (provenance of the stored value), every body element kind the API can append is constructed by the reader, and hand-written MarshalXML methods pass every tagged field to the encoder. A necessary condition of the round trip, not the round trip itself.",
 		NotDecided:  "value-level fidelity (whitespace inside w:t, numeric formatting), cycle stability beyond reader ⊇ writer",
 		Rules: []Rule{
 			{"schema-read/attr/body", "reader covers writer struct tags (regions of StartElement.Name.Local comparisons, attribute provenance)", ruleSchema},
 			{"marshal-cover", "custom MarshalXML methods encode every tagged field", ruleMarshalCover},
 		},
-		Assumptions: []string{"encoding/xml marshals exactly the tagged fields", "reader functions are those statically reachable from (*Document).parseDocument"},
+		Assumptions: append([]string{"encoding/xml marshals exactly the tagged fields", "reader functions are those statically reachable from (*Document).parseDocument"}, commonAssumptions...),
 	}
-}
-
-func init() {
-	props["C18"] = PropSpec{Title: "Rendering a document template changes only its placeholders", Explanation: "tmp", Rules: []Rule{{"clone-cover/map/pure", "template clone functions copy every field", ruleCloneDocument}}}
-	props["C14"] = PropSpec{Title: "Style inheritance", Explanation: "tmp", Rules: []Rule{{"clone", "style clone", ruleCloneStyle}, {"merge", "m", ruleMerge}, {"recur", "r", ruleRecurGuard}, {"noreg", "n", ruleNoRegistryWrite}}}
-	props["C09"] = PropSpec{Title: "Tables", Explanation: "tmp", Rules: []Rule{{"copy", "CopyTable", ruleCopyTable}, {"err-atomic", "e", ruleErrAtomicTable}, {"index-adeq", "i", ruleIndexAdeq}, {"nil-guard", "n", ruleNilGuardGrid}}}
-}
-
-func init() {
-	props["C02"] = PropSpec{Title: "rels", Explanation: "tmp", Rules: []Rule{{"fresh", "f", ruleFreshRelID}, {"attach", "a", ruleRelAttach}, {"refflow", "r", ruleRefFlow}}}
-	props["C10"] = PropSpec{Title: "img", Explanation: "tmp", Rules: []Rule{{"media", "m", ruleMediaFresh}}}
-	props["C11"] = PropSpec{Title: "hf", Explanation: "tmp", Rules: []Rule{{"keyed", "k", func(r *Run) { ruleKeyedInsert(r, nil) }}}}
-}
-
-func init() {
-	props["C05"] = PropSpec{Title: "save", Explanation: "tmp", Rules: []Rule{{"save-err", "f", ruleSaveErr}, {"save-sibling", "a", ruleSaveSibling}}}
-}
-
-func init() {
-	props["C06"] = PropSpec{Title: "open", Explanation: "tmp", Rules: []Rule{{"loop-token", "f", ruleLoopToken}, {"recursion", "a", ruleReaderRecursion}, {"init-body", "i", ruleInitBody}}}
-	props["C04"] = PropSpec{Title: "nondestructive", Explanation: "tmp", Rules: []Rule{{"run-container", "f", ruleRunContainer}}}
-}
-
-func init() {
-	props["C07"] = PropSpec{Title: "indep", Explanation: "tmp", Rules: []Rule{{"global-state", "f", func(r *Run) { ruleGlobalState(r, nil) }}}}
-	props["C17"] = PropSpec{Title: "pure", Explanation: "tmp", Rules: []Rule{{"lock", "f", ruleLock}, {"publish", "p", rulePublishImmut}, {"render-pure", "p", ruleRenderPure}}}
-}
-
-func init() {
-	props["C08"] = PropSpec{Title: "body", Explanation: "tmp", Rules: []Rule{{"body-write", "f", ruleBodyWrite}, {"err-atomic", "p", ruleErrAtomicRemove}, {"sectpr-last", "p", ruleSectPrLast}}}
-	props["C12"] = PropSpec{Title: "page", Explanation: "tmp", Rules: []Rule{{"err-atomic", "p", ruleErrAtomicPage}, {"field-bij", "b", ruleFieldBij}, {"setter-scope", "s", ruleSetterScope}}}
-}
-
-func init() {
-	props["C13"] = PropSpec{Title: "ids", Explanation: "tmp", Rules: []Rule{{"style-id", "f", func(r *Run) { ruleStyleID(r, "") }}, {"part-dep", "p", rulePartDep}, {"must-update", "p", ruleMustUpdate}}}
-	props["C15"] = PropSpec{Title: "lists", Explanation: "tmp", Rules: []Rule{{"memo-key", "f", ruleMemoKey}, {"global-state", "g", func(r *Run) {
-		ruleGlobalState(r, map[string]bool{"globalFootnoteManager": true, "globalNumberingManager": true})
-	}}}}
-}
-
-func init() {
-	props["C16"] = PropSpec{Title: "tmpl", Explanation: "tmp", Rules: []Rule{{"regex-lazy", "f", ruleRegexLazy}, {"pass-order", "p", rulePassOrder}, {"closure-ret", "p", ruleClosureRet}}}
-	props["C01"] = PropSpec{Title: "wf", Explanation: "tmp", Rules: []Rule{{"raw-xml", "f", ruleRawXML}}}
-}
-
-func init() {
-	p := props["C01"]
-	p.Rules = append(p.Rules, Rule{"part-prov", "p", rulePartProv}, Rule{"ct-media", "c", ruleCTMedia})
-	props["C01"] = p
-}
-
-func init() {
-	p := props["C04"]
-	p.Rules = append(p.Rules, Rule{"part-pass", "p", rulePartPass}, Rule{"schema-opc", "c", ruleSchemaOPC}, Rule{"media-fresh", "m", ruleMediaFresh})
-	props["C04"] = p
+	props["C04"] = PropSpec{
+		Title:       "Opening and re-saving an existing package is non-destructive",
+		Explanation: "Decides: (part-pass) every archive entry is stored under its own name on every loop iteration of Open, nothing ever deletes from the part map, and the functions reachable from Save/ToBytes overwrite only the five parts the library regenerates; (rel-keep) every relationship parsed from the document relationship part is retained; (schema-opc) the OPC structs that are parsed and re-marshalled model every attribute of their element (ECMA-376 Part 2 table, incl. TargetMode); (fresh-dep/media, counter-inc, media-bytes) new media names are derived from a counter that is recomputed from the existing part names on every successful Open and incremented before use, and media bytes are stored unmodified; (run-container) the paragraph reader descends into every element that may contain runs (hyperlink, smartTag, ins, moveTo, sdt, fldSimple, customXml, dir, bdo) instead of skipping it.",
+		NotDecided:  "byte identity of ZIP entry metadata; content types of parts the library never touches beyond keeping [Content_Types].xml entries",
+		Rules: []Rule{
+			{"part-pass/rel-keep", "loop-body must-pass-through, who-may-write Document.parts", rulePartPass},
+			{"schema-opc", "OPC attribute table vs struct tags", ruleSchemaOPC},
+			{"fresh-dep/media", "media naming depends on a restored, incremented counter", ruleMediaFresh},
+			{"run-container", "paragraph reader descends into run containers", ruleRunContainer},
+		},
+		Assumptions: commonAssumptions,
+	}
+	props["C05"] = PropSpec{
+		Title:       "Save reports success only for a completely written, faithful file",
+		Explanation: "Decides: (save-err) in Save and ToBytes every call that returns an error has that error tested, and the non-nil branch reaches only error returns; (save-close) on every path to a nil-error return the zip writer's Close — and in Save the file's Close — has been called with its result checked (a deferred Close whose result is dropped does not count), zip before file; (part-pass) every iteration over the part map reaches Create and Write; (save-sibling) Save and ToBytes perform the same ordered sequence of part-regenerating calls.",
+		NotDecided:  "durability after Close (no fsync is claimed); behaviour of the OS for device files",
+		Rules: []Rule{
+			{"save-err/save-close", "error discipline and must-pass-through of checked Close on success paths (CFG)", ruleSaveErr},
+			{"save-sibling", "sibling agreement of the two save entry points", ruleSaveSibling},
+		},
+		Assumptions: commonAssumptions,
+	}
+	props["C06"] = PropSpec{
+		Title:       "Opening never crashes or hangs, whatever the input bytes",
+		Explanation: "Decides: (loop-token) every non-range loop of the reader consumes a token on every cycle (Decoder.Token or a reader that always does) and every Token error branch leaves the loop — with a finite input every loop terminates; (reader-recursion) the reader's call graph has no cycle, or recursive calls are guarded by a consumed start element; (init-body) every nil-error return of Open is preceded by a store of a non-nil Body (must-store summaries); (nil-guard) Table.Grid — set by the reader only inside the tblGrid case — is nil-checked before every dereference.",
+		NotDecided:  "panics inside encoding/xml / archive/zip; memory exhaustion; nil dereferences of optional pointers other than Table.Grid and Document.Body",
+		Rules: []Rule{
+			{"loop-token", "token loops terminate (CFG cycles vs consuming calls, error exits)", ruleLoopToken},
+			{"reader-recursion", "reader call graph acyclic or token-guarded", ruleReaderRecursion},
+			{"init-body", "Body initialised on every successful Open path", ruleInitBody},
+			{"nil-guard", "Table.Grid dereferences are nil-guarded", ruleNilGuardGrid},
+		},
+		Assumptions: append([]string{"Decoder.Token returns an error at end of input and consumes input on every successful call"}, commonAssumptions...),
+	}
+	props["C07"] = PropSpec{
+		Title:       "Documents are independent of each other, sequentially and concurrently",
+		Explanation: "Decides: every package-level variable of the three packages is either never written (directly or through pointers derived from it, interprocedurally, incl. getters that return it) from code reachable from the exported API, or is the logger configuration written only by the logging API. A shared, mutable, unsynchronised package-level registry reachable from per-document methods is both a leak between documents and a data race.",
+		NotDecided:  "races between goroutines using the SAME document; third-party packages",
+		Rules: []Rule{
+			{"global-state", "classification of every package-level variable by reachable writers (mutation summaries over the VTA call graph)", func(r *Run) { ruleGlobalState(r, nil) }},
+		},
+		Assumptions: commonAssumptions,
+	}
+	props["C08"] = PropSpec{
+		Title:       "Body editing behaves like an ordered list of elements",
+		Explanation: "Decides: (body-write) every store to Body.Elements is an append at the end, except removal of exactly one element in the Remove* functions and a frozen, reasoned list of rewriters (TOC, section-properties replacement, reader/constructors, template functions working on their clone); (err-atomic) the Remove* functions never write before returning false; (sectpr-last) Body.MarshalXML encodes non-section elements by one in-order range and the section properties exactly once, outside any loop, after it and before the end token.",
+		NotDecided:  "index arithmetic (which element index a paragraph index maps to) beyond the shape of the splice",
+		Rules: []Rule{
+			{"body-write", "who may write Body.Elements and in which shape", ruleBodyWrite},
+			{"err-atomic", "failure returns precede all writes (Remove*)", ruleErrAtomicRemove},
+			{"sectpr-last", "shape of Body.MarshalXML", ruleSectPrLast},
+		},
+		Assumptions: commonAssumptions,
+	}
+	props["C09"] = PropSpec{
+		Title:       "Tables stay well-formed grids under every sequence of structural edits",
+		Explanation: "Decides: (err-atomic) in every *Table method that writes structure or content and returns an error, no write to the receiver can be followed by a failure return (callee writes attributed to the success continuation when the callee is itself atomic); (index-adeq) an index or slice bound applied to the cells of one row is not guarded only by the cell count of a different row (rows differ in length after horizontal merges); (nil-guard) t.Grid is nil-checked before use; (copy-cover/alias) CopyTable sets every field of every struct it constructs and stores no pointer, slice or map taken from the source.",
+		NotDecided:  "the reference-grid semantics (which cell ends up where), vMerge continuation consistency, 'every cell has a paragraph'",
+		Rules: []Rule{
+			{"err-atomic", "validate-then-mutate on all paths (CFG reachability, write summaries)", ruleErrAtomicTable},
+			{"index-adeq", "guard row = use row", ruleIndexAdeq},
+			{"nil-guard", "Table.Grid dereferences are nil-guarded", ruleNilGuardGrid},
+			{"copy-cover/alias", "CopyTable is complete and alias-free", ruleCopyTable},
+		},
+		Assumptions: commonAssumptions,
+	}
+	props["C10"] = PropSpec{
+		Title:       "Every picture shows exactly the image bytes it was given, at the requested size",
+		Explanation: "Decides the chain picture → relationship → part by construction: (media-bytes) the media part holds the data parameter itself; (ref-flow) ImageInfo.RelationID is the id stored in the image relationship created by the same call and a:blip r:embed is loaded from it; (rel-attach) the relationship target media/X and the part key word/media/X share the same symbolic X; (fresh-dep) media names depend on a counter restored from existing names on Open, incremented before use and copied by cloneDocument; relationship ids must depend on existing ids (shared with C02); (schema-read) the drawing structs survive reopen.",
+		NotDecided:  "the EMU sizing arithmetic (numeric); image decoding",
+		Rules: []Rule{
+			{"fresh-dep/media", "media naming, counter restore/increment, bytes unmodified", ruleMediaFresh},
+			{"ref-flow", "embed id = relationship id", ruleRefFlowImage},
+			{"rel-attach", "target ↔ part key", ruleRelAttachImage},
+			{"fresh-dep/relid", "image relationship ids depend on existing ids", ruleFreshRelIDImage},
+		},
+		Assumptions: commonAssumptions,
+	}
+	props["C11"] = PropSpec{
+		Title:       "Each header/footer kind has exactly one, current, resolvable definition",
+		Explanation: "Decides: (keyed-insert) every append to a collection that is keyed (header/footer references by type, content-type overrides by part name, defaults by extension) is preceded by a search for the key whose equal branch returns or overwrites; (kind-injective) the three kinds map to pairwise distinct part names; (ref-flow) the reference carries the id of the relationship just created; header/footer references are read back (schema) and cloned (clone-cover).",
+		NotDecided:  "that the part content equals the most recent call's formatting (value-level)",
+		Rules: []Rule{
+			{"keyed-insert", "find-or-replace before append on keyed collections", func(r *Run) { ruleKeyedInsert(r, nil) }},
+			{"kind-injective", "getFileNameForType maps kinds to distinct constants", ruleKindInjective},
+			{"ref-flow", "reference id = relationship id", ruleRefFlowHF},
+		},
+		Assumptions: commonAssumptions,
+	}
+	props["C12"] = PropSpec{
+		Title:       "Page-setting calls change only what they name, and settings read back as set",
+		Explanation: "Decides: (field-bij) for every PageSettings field GetPageSettings computes from section XML attributes, SetPageSettings writes those attributes from that very field, with inverse unit conversions, and every field Set consumes is read back; (inv-dep) because the written width/height depend on Orientation, the read-back custom width/height must depend on w:orient; (setter-scope) each convenience setter stores exactly the fields it names, from its arguments, on the object returned by GetPageSettings, and passes it to SetPageSettings; (err-atomic) no page setter writes before a failure return.",
+		NotDecided:  "rounding, the 1 mm recognition tolerance, range bounds (numeric)",
+		Rules: []Rule{
+			{"field-bij/inv-dep", "set/get field maps are inverse (dependence slices with control dependence)", ruleFieldBij},
+			{"setter-scope", "convenience setters touch only their fields", ruleSetterScope},
+			{"err-atomic", "validate before write", ruleErrAtomicPage},
+		},
+		Assumptions: commonAssumptions,
+	}
+	props["C13"] = PropSpec{
+		Title:       "Everything a document refers to by id is defined in the same package",
+		Explanation: "Decides: (style-id) every constant or bounded-integer-pattern style id the library itself writes into w:pStyle / w:tblStyle (and every exported table-style-template constant) is a StyleID registered by style.NewStyleManager(); (part-dep) the styles part is regenerated from the registry on every successful path of serializeStyles and the regenerated numbering part depends on the document's own state; (must-update) getOrCreateNumbering registers the instance and regenerates the part on every path and the instance refers to the abstract definition selected in that call.",
+		NotDecided:  "ids in opened foreign documents; ids passed in by the caller",
+		Rules: []Rule{
+			{"style-id", "emitted style ids ⊆ registry (constant-set inclusion with loop/range expansion)", func(r *Run) { ruleStyleID(r, "") }},
+			{"part-dep", "regenerated parts depend on registry / replaced part", rulePartDep},
+			{"must-update", "registrations on every path", ruleMustUpdate},
+		},
+		Assumptions: append([]string{"unbounded integer parts of a style-id pattern are expanded over heading/TOC levels 1..9"}, commonAssumptions...),
+	}
+	props["C14"] = PropSpec{
+		Title:       "Style inheritance resolves to the nearest definition and always terminates",
+		Explanation: "Decides: (merge-cover/prec) the merge functions carry every field of their struct from both arguments, the parent's value only where the child's is nil, the child being the argument that does not come from the recursive resolution; (resolve-recursive) the parent handed to the merge is itself resolved with inheritance; (recur-guard) recursion along based-on carries a visited set or depth bound; (no-registry-write) lookup functions never write through the registry; (clone-cover/alias) StyleManager.Clone and its helpers copy every field and share nothing.",
+		NotDecided:  "nothing value-level is claimed",
+		Rules: []Rule{
+			{"merge-cover/prec", "per-field coverage and precedence (nil-test regions)", ruleMerge},
+			{"recur-guard", "based-on recursion guarded", ruleRecurGuard},
+			{"no-registry-write", "lookups are read-only (mutation summaries)", ruleNoRegistryWrite},
+			{"clone-cover/alias", "style clone complete and alias-free", ruleCloneStyle},
+		},
+		Assumptions: commonAssumptions,
+	}
+	props["C15"] = PropSpec{
+		Title:       "Lists, notes and tables of contents reflect exactly the calls made",
+		Explanation: "Decides: (memo-key) the key under which an abstract numbering definition is memoised contains every ListConfig field the memoised computation reads; (global-state) the note and numbering registries from which parts are rebuilt are not process-wide; (must-update) numbering registrations happen on every path.",
+		NotDecided:  "TOC content and idempotence, note texts and counts (runtime values)",
+		Rules: []Rule{
+			{"memo-key", "memo key ⊇ inputs of the memoised function", ruleMemoKey},
+			{"global-state", "note/numbering registries are per document", func(r *Run) {
+				ruleGlobalState(r, map[string]bool{"globalFootnoteManager": true, "globalNumberingManager": true})
+			}},
+			{"must-update", "registrations on every path", ruleMustUpdate},
+		},
+		Assumptions: commonAssumptions,
+	}
+	props["C16"] = PropSpec{
+		Title:       "Text templates render according to the documented substitution semantics",
+		Explanation: "Decides: (regex-lazy) no capture group that is read from a submatch can only ever be empty (lazy quantifier with nothing after it that must match, decided on the regexp/syntax tree); (pass-order) no directive-interpreting pass re-scans text into which an earlier pass inserted data values; (closure-ret) a substitution closure returns the matched placeholder unchanged when the variable is absent.",
+		NotDecided:  "everything else about what the regular expressions match (nesting, adjacency, greedy interaction)",
+		Rules: []Rule{
+			{"regex-lazy", "always-empty capture groups that are consumed", ruleRegexLazy},
+			{"pass-order", "value-inserting passes precede no directive-interpreting pass", rulePassOrder},
+			{"closure-ret", "unknown variables stay", ruleClosureRet},
+		},
+		Assumptions: append([]string{"RE2 leftmost-first semantics as documented by package regexp"}, commonAssumptions...),
+	}
+	props["C17"] = PropSpec{
+		Title:       "Template rendering is pure, repeatable and safe to use concurrently",
+		Explanation: "Decides: (lock) every access to the engine's guarded fields happens with the mutex held in the accessing function or in every caller (write access needs the write lock), and every acquisition is released on all exits; (publish-immut) no function writes Template/TemplateBlock memory it did not create — in particular a template obtained from the cache is never passed to a writer; (render-pure) the render entry points never write through their data or template parameters and never pass template.BaseDoc to a function that writes through it; (clone-pure) clone functions never write to their source.",
+		NotDecided:  "equality of concurrent and sequential results beyond race freedom of the engine's own state; aliasing between a rendered document and its base through shallow-copied sub-objects",
+		Rules: []Rule{
+			{"lock", "lock discipline on TemplateEngine fields", ruleLock},
+			{"publish-immut", "published templates are immutable", rulePublishImmut},
+			{"render-pure", "rendering writes only the clone", ruleRenderPure},
+			{"clone-pure", "clone functions do not write their source", ruleClonePure},
+		},
+		Assumptions: commonAssumptions,
+	}
+	props["C18"] = PropSpec{
+		Title:       "Rendering a document template changes only its placeholders",
+		Explanation: "Decides: (clone-cover/map) every clone function of the template engine sets every field of every struct it constructs from the same-named source field — a field missing from a clone is content or formatting silently dropped from every rendered document; (raw-xml) header/footer substitution escapes values with an encoding/xml escaper; (closure-ret) placeholders without data stay visible.",
+		NotDecided:  "placeholder location across run boundaries (byte offsets), row expansion contents, which run's formatting a value inherits",
+		Rules: []Rule{
+			{"clone-cover/map", "clone functions cover every field (object groups over access paths)", ruleCloneDocument},
+			{"raw-xml", "values spliced into header/footer XML are escaped", ruleRawXML},
+			{"closure-ret", "unknown variables stay", ruleClosureRet},
+		},
+		Assumptions: commonAssumptions,
+	}
+	props["C19"] = PropSpec{
+		Title:       "Markdown converts to Word totally and without losing or inventing text",
+		Explanation: "Decides: (dispatch-exh) every goldmark node type the parser can produce is classified; every block kind that needs its own rendering has a case in Render; every inline kind that carries its own text (no Text children) has a case in the shared text extractor; the inline renderer's default arm falls back to that extractor; (style-id) style ids the renderer emits are defined.",
+		NotDecided:  "totality (no panic for any byte string: index arithmetic in the LaTeX conversion is value-level), goldmark's own behaviour, table dimensions, code indentation",
+		Rules: []Rule{
+			{"dispatch-exh", "node-kind classification vs type switches", ruleDispatchExh},
+			{"style-id", "emitted style ids ⊆ registry", func(r *Run) { ruleStyleID(r, pkgMd) }},
+		},
+		Assumptions: append([]string{"goldmark v1.7.8 node set; classification table in the checker (one reason per kind)"}, commonAssumptions...),
+	}
+	props["C20"] = PropSpec{
+		Title:       "Word-to-Markdown export keeps reading order and text, and is stable",
+		Explanation: "Decides: (export-order) paragraphs and tables are emitted from one loop over Body.Elements; (export-text) every non-empty result of the run formatter contains the run's text; (export-esc) run text passes a Markdown escaper before markers are added.",
+		NotDecided:  "the export/import fixpoint as a whole",
+		Rules: []Rule{
+			{"export-order", "emission driven by the ordered element list", ruleExportOrder},
+			{"export-esc/text", "run text escaped and emitted once", ruleExportEsc},
+		},
+		Assumptions: commonAssumptions,
+	}
 }
